@@ -197,3 +197,57 @@ func VH_C10_api() {
 	vrtReach("quiescent")
 	_ = ves.ActorKilledEvent{}
 }
+
+// vhFirstActor records the first message its behaviour sees.
+type vhFirstActor struct {
+	mu    sync.Mutex
+	first vivid.Message
+	n     int
+}
+
+func (a *vhFirstActor) OnReceive(ctx vivid.ActorContext) {
+	a.mu.Lock()
+	if a.n == 0 {
+		a.first = ctx.Message()
+	}
+	a.n++
+	a.mu.Unlock()
+}
+
+// vhGreeter tells every newly spawned actor a greeting as soon as it learns
+// about it from the event stream.
+type vhGreeter struct{}
+
+func (vhGreeter) OnReceive(ctx vivid.ActorContext) {
+	switch m := ctx.Message().(type) {
+	case *vivid.OnLaunch:
+		ctx.EventStream().Subscribe(ctx, ves.ActorSpawnedEvent{})
+	case ves.ActorSpawnedEvent:
+		if !m.ActorRef.Equals(ctx.Ref()) {
+			ctx.Tell(m.ActorRef, &vhUserMsg{N: 1})
+		}
+	}
+}
+
+// VH_C05_launch_first_live: on the live system (real mailboxes and consumer
+// goroutines, preemptive mode) a registry-style listener greets every actor it
+// learns about from ActorSpawnedEvent. Whatever the schedule, the new actor's
+// behaviour sees OnLaunch before the greeting: nobody can learn about the
+// actor from the system before its OnLaunch is in its mailbox.
+func VH_C05_launch_first_live() {
+	sys := vhLiveSystem()
+	_, err := sys.ActorOf(vhGreeter{}, vivid.WithActorName("greeter"))
+	vrtAssert(err == nil, "setup-spawn")
+	vrtYield()
+	na := &vhFirstActor{}
+	_, err = sys.ActorOf(na, vivid.WithActorName("n"))
+	vrtAssert(err == nil, "spawn-ok")
+	vrtYield()
+	vrtRaceOff()
+	vrtAssert(na.n >= 1, "new-actor-launched")
+	_, isLaunch := na.first.(*vivid.OnLaunch)
+	vrtAssert(isLaunch, "onlaunch-before-any-other-message")
+	if na.n >= 2 {
+		vrtReach("greeted")
+	}
+}
